@@ -48,6 +48,13 @@ impl PeerRun {
   /// one more ut_metadata request than before (as an honest peer would), or has hung up, or 40 ms have passed.
   /// `cuts`: extra segment boundaries (offsets into the concatenation) with a short pause.
   pub fn start_staged(stages: Vec<Vec<u8>>, cuts: Vec<usize>) -> PeerRun {
+    PeerRun::start_staged_for(stages, cuts, 0)
+  }
+
+  /// `strict_ut_id` != 0: an honest, strict peer - it sends the next stage only after a request addressed to the
+  /// extension id it assigned (BEP 10: messages under other ids are not for ut_metadata and are ignored), waiting
+  /// until the client asks, hangs up, or 5 s have passed.
+  pub fn start_staged_for(stages: Vec<Vec<u8>>, cuts: Vec<usize>, strict_ut_id: u8) -> PeerRun {
     let listener = TcpListener::bind("127.0.0.1:0").expect("bind loopback TCP");
     let addr = listener.local_addr().unwrap();
     let (tx, rx) = channel();
@@ -82,10 +89,10 @@ impl PeerRun {
       for (k, stage) in stages.iter().enumerate() {
         if k > 0 {
           let (m, cv) = &*shared;
-          let deadline = std::time::Instant::now() + Duration::from_millis(40);
+          let deadline = std::time::Instant::now() + if strict_ut_id != 0 { Duration::from_secs(5) } else { Duration::from_millis(40) };
           let mut g = m.lock().unwrap();
           loop {
-            let n = requests_in(&g.data, 0).len();
+            let n = requests_in(&g.data, strict_ut_id).len();
             if n > seen_requests || g.closed {
               seen_requests = n;
               break;
